@@ -51,7 +51,9 @@ impl InlineParser {
 
         if state.level < state.md.max_nesting {
             for rule in self.ruler.iter() {
+                state.level += 1;
                 ok = rule(state, true);
+                state.level -= 1;
                 if ok.is_some() {
                     break;
                 }
@@ -69,6 +71,8 @@ impl InlineParser {
             //       validation mode)
             //
             state.pos = state.pos_max;
+            state.cache.insert(pos, state.pos);
+            return;
         }
 
         if let Some(len) = ok {
